@@ -270,3 +270,14 @@ def implied_by(test, hyps: set[str]) -> bool:
             return all(implied_by(v, hyps) for v in test.values)
         return any(implied_by(v, hyps) for v in test.values)
     return False
+
+
+BENIGN_PREFIXES = ('logger.', 'logging.', 'util.debug', 'util.info', 'util.sub_debug', 'warnings.warn')
+BENIGN_CALLS = {'print', 'perf_counter', 'time.perf_counter', 'time.time', 'time.monotonic', 'len', 'isinstance', 'getattr', 'hasattr', 'id', 'repr', 'str', 'int', 'float', 'bool', 'type', 'sorted', 'set', 'list', 'dict', 'tuple', 'min', 'max', 'range', 'enumerate', 'zip', 'threading.current_thread', 'multiprocessing.current_process', 'current_process'}
+
+
+def benign_call(c: ast.Call) -> bool:
+    """logging / clock / builtin introspection: calls a maintenance edit adds freely and that do not fail in practice;
+    rules that treat "any call" as fallible exempt them"""
+    d = dotted(c.func) or ''
+    return d in BENIGN_CALLS or d.startswith(BENIGN_PREFIXES)
